@@ -8,6 +8,7 @@ package c15
 
 import (
 	"fmt"
+	iofs "io/fs"
 	"strings"
 
 	"github.com/titpetric/vuego"
@@ -79,14 +80,14 @@ func (p editProc) run(nodes []*html.Node) error {
 func (p editProc) PreProcess(nodes []*html.Node) error  { return p.run(nodes) }
 func (p editProc) PostProcess(nodes []*html.Node) error { return p.run(nodes) }
 
-func newRoot(fs *memfsFS, proc string) vuego.Template {
+func newRoot(fs iofs.FS, proc string) vuego.Template {
 	if proc == procNone {
 		return vuego.NewFS(fs)
 	}
 	return vuego.NewFS(fs, vuego.WithProcessor(editProc{proc}))
 }
 
-func newVue(fs *memfsFS, proc string) *vuego.Vue {
+func newVue(fs iofs.FS, proc string) *vuego.Vue {
 	v := vuego.NewVue(fs)
 	if proc != procNone {
 		v.RegisterNodeProcessor(editProc{proc})
